@@ -339,7 +339,187 @@ class SwapAdjacent(ast.NodeTransformer):
         return node
 
 
-KINDS = {"identity": None, "nested": Nested, "noteq": NotEq, "swapeq": SwapEq, "splitand": SplitAnd, "comp2loop": Comp2Loop, "loop2comp": Loop2Comp, "unelse": UnElse, "augexpand": AugExpand, "ifelse": IfElseInvert, "guardinv": GuardInvert, "hoistarg": HoistArg, "inlinetemp": InlineTemp, "swapadj": SwapAdjacent}
+class DeMorgan(ast.NodeTransformer):
+    """`not (a and b)` -> `not a or not b`;  a test that is an `or` of negations -> `not (x and y)`;  `a and b` guarding a raise/return is left alone"""
+    def visit_UnaryOp(self, node):
+        self.generic_visit(node)
+        if isinstance(node.op, ast.Not) and isinstance(node.operand, ast.BoolOp):
+            dual = ast.Or() if isinstance(node.operand.op, ast.And) else ast.And()
+            return ast.copy_location(ast.BoolOp(op=dual, values=[_neg(v) for v in node.operand.values]), node)
+        return node
+
+    def visit_BoolOp(self, node):
+        self.generic_visit(node)
+        if all(isinstance(v, ast.UnaryOp) and isinstance(v.op, ast.Not) for v in node.values):
+            dual = ast.Or() if isinstance(node.op, ast.And) else ast.And()
+            return ast.copy_location(ast.UnaryOp(op=ast.Not(), operand=ast.BoolOp(op=dual, values=[v.operand for v in node.values])), node)
+        return node
+
+
+class IfExp2If(ast.NodeTransformer):
+    """`x = a if c else b` -> if c: x = a else: x = b ;  `return a if c else b` likewise"""
+    def _fix(self, body):
+        out = []
+        for st in body:
+            if isinstance(st, ast.Assign) and isinstance(st.value, ast.IfExp) and len(st.targets) == 1 and isinstance(st.targets[0], (ast.Name, ast.Attribute)):
+                e = st.value
+                out.append(ast.copy_location(ast.If(test=e.test, body=[ast.copy_location(ast.Assign(targets=[copy.deepcopy(st.targets[0])], value=e.body), st)],
+                                                    orelse=[ast.copy_location(ast.Assign(targets=[copy.deepcopy(st.targets[0])], value=e.orelse), st)]), st))
+            elif isinstance(st, ast.Return) and isinstance(st.value, ast.IfExp):
+                e = st.value
+                out.append(ast.copy_location(ast.If(test=e.test, body=[ast.copy_location(ast.Return(value=e.body), st)], orelse=[ast.copy_location(ast.Return(value=e.orelse), st)]), st))
+            else:
+                out.append(st)
+        return out
+
+    def generic_visit(self, node):
+        super().generic_visit(node)
+        for f in ("body", "orelse", "finalbody"):
+            b = getattr(node, f, None)
+            if isinstance(b, list) and b and isinstance(b[0], ast.stmt):
+                setattr(node, f, self._fix(b))
+        return node
+
+
+class If2IfExp(ast.NodeTransformer):
+    """if c: x = a else: x = b  ->  x = a if c else b   (same simple target in both single-statement branches)"""
+    def visit_If(self, node):
+        self.generic_visit(node)
+        if len(node.body) == 1 and len(node.orelse) == 1:
+            a, b = node.body[0], node.orelse[0]
+            if isinstance(a, ast.Assign) and isinstance(b, ast.Assign) and len(a.targets) == 1 and len(b.targets) == 1 and ast.dump(a.targets[0]) == ast.dump(b.targets[0]) and isinstance(a.targets[0], (ast.Name, ast.Attribute)):
+                return ast.copy_location(ast.Assign(targets=[a.targets[0]], value=ast.IfExp(test=node.test, body=a.value, orelse=b.value)), node)
+            if isinstance(a, ast.Return) and isinstance(b, ast.Return) and a.value is not None and b.value is not None:
+                return ast.copy_location(ast.Return(value=ast.IfExp(test=node.test, body=a.value, orelse=b.value)), node)
+        return node
+
+
+class ContGuard(ast.NodeTransformer):
+    """loop body `if c: continue` + rest  ->  `if not c: rest`  (the guard's body is the single continue, rest is non-empty, no else)"""
+    def _fix(self, body):
+        for i, st in enumerate(body):
+            if isinstance(st, ast.If) and not st.orelse and len(st.body) == 1 and isinstance(st.body[0], ast.Continue) and body[i + 1:]:
+                return body[:i] + [ast.copy_location(ast.If(test=_neg(st.test), body=self._fix(body[i + 1:]), orelse=[]), st)]
+        return body
+
+    def visit_For(self, node):
+        self.generic_visit(node)
+        node.body = self._fix(node.body)
+        return node
+
+    visit_While = visit_For
+
+
+class AnyAll(ast.NodeTransformer):
+    """`x = any(<genexp over one for>)` / `return any(...)` / `if any(...):`  ->  an explicit flag loop with break (and all() likewise)"""
+    def __init__(self):
+        self.n = 0
+
+    def _loop(self, call, st):
+        g = call.args[0]
+        gen = g.generators[0]
+        self.n += 1
+        flag = f"flag_{self.n}"
+        is_any = call.func.id == "any"
+        test = g.elt if is_any else _neg(g.elt)
+        inner = [ast.If(test=test, body=[ast.Assign(targets=[ast.Name(id=flag, ctx=ast.Store())], value=ast.Constant(value=is_any)), ast.Break()], orelse=[])]
+        for c in reversed(gen.ifs):
+            inner = [ast.If(test=c, body=inner, orelse=[])]
+        pre = [ast.Assign(targets=[ast.Name(id=flag, ctx=ast.Store())], value=ast.Constant(value=not is_any)), ast.For(target=gen.target, iter=gen.iter, body=inner, orelse=[])]
+        return [ast.copy_location(x, st) for x in pre], ast.Name(id=flag, ctx=ast.Load())
+
+    @staticmethod
+    def _is(call):
+        return (isinstance(call, ast.Call) and isinstance(call.func, ast.Name) and call.func.id in ("any", "all") and len(call.args) == 1 and isinstance(call.args[0], ast.GeneratorExp)
+                and len(call.args[0].generators) == 1)
+
+    def _fix(self, body):
+        out = []
+        for st in body:
+            if isinstance(st, (ast.Assign, ast.Return)) and self._is(st.value):
+                pre, name = self._loop(st.value, st)
+                st.value = name
+                out += pre
+            elif isinstance(st, ast.If) and self._is(st.test):
+                pre, name = self._loop(st.test, st)
+                st.test = name
+                out += pre
+            elif isinstance(st, ast.If) and isinstance(st.test, ast.UnaryOp) and isinstance(st.test.op, ast.Not) and self._is(st.test.operand):
+                pre, name = self._loop(st.test.operand, st)
+                st.test.operand = name
+                out += pre
+            out.append(st)
+        return out
+
+    def generic_visit(self, node):
+        super().generic_visit(node)
+        for f in ("body", "orelse", "finalbody"):
+            b = getattr(node, f, None)
+            if isinstance(b, list) and b and isinstance(b[0], ast.stmt):
+                setattr(node, f, self._fix(b))
+        return node
+
+
+class LenZero(ast.NodeTransformer):
+    """`len(x) == 0` -> `not x`, `len(x) > 0` / `len(x) != 0` -> `x` in if/while/assert tests"""
+    def _t(self, t):
+        if isinstance(t, ast.Compare) and len(t.ops) == 1 and isinstance(t.left, ast.Call) and isinstance(t.left.func, ast.Name) and t.left.func.id == "len" and isinstance(t.comparators[0], ast.Constant) and t.comparators[0].value == 0:
+            x = t.left.args[0]
+            if isinstance(t.ops[0], ast.Eq):
+                return ast.UnaryOp(op=ast.Not(), operand=x)
+            if isinstance(t.ops[0], (ast.Gt, ast.NotEq)):
+                return x
+        if isinstance(t, ast.UnaryOp) and isinstance(t.op, ast.Not):
+            t.operand = self._t(t.operand)
+        if isinstance(t, ast.BoolOp):
+            t.values = [self._t(v) for v in t.values]
+        return t
+
+    def visit_If(self, node):
+        self.generic_visit(node)
+        node.test = self._t(node.test)
+        return node
+
+    visit_While = visit_If
+    visit_Assert = visit_If
+
+
+class AddElse(ast.NodeTransformer):
+    """`if c: ...; return/continue/raise` followed by rest -> rest moved into an else branch"""
+    def _fix(self, body):
+        for i, st in enumerate(body):
+            if isinstance(st, ast.If) and not st.orelse and isinstance(st.body[-1], (ast.Return, ast.Continue, ast.Raise)) and body[i + 1:]:
+                return body[:i] + [ast.copy_location(ast.If(test=st.test, body=st.body, orelse=self._fix(body[i + 1:])), st)]
+        return body
+
+    def generic_visit(self, node):
+        super().generic_visit(node)
+        if isinstance(node, (ast.FunctionDef, ast.For, ast.While)):
+            node.body = self._fix(node.body)
+        return node
+
+
+class MergeIf(ast.NodeTransformer):
+    """`if a: if b: X` (neither has an else, inner is the only statement) -> `if a and b: X`"""
+    def visit_If(self, node):
+        self.generic_visit(node)
+        if not node.orelse and len(node.body) == 1 and isinstance(node.body[0], ast.If) and not node.body[0].orelse:
+            inner = node.body[0]
+            return ast.copy_location(ast.If(test=ast.BoolOp(op=ast.And(), values=[node.test, inner.test]), body=inner.body, orelse=[]), node)
+        return node
+
+
+class NotIn(ast.NodeTransformer):
+    """`a not in b` -> `not a in b`, `a is not b` -> `not a is b`"""
+    def visit_Compare(self, node):
+        self.generic_visit(node)
+        if len(node.ops) == 1 and isinstance(node.ops[0], (ast.NotIn, ast.IsNot)):
+            op = ast.In() if isinstance(node.ops[0], ast.NotIn) else ast.Is()
+            return ast.copy_location(ast.UnaryOp(op=ast.Not(), operand=ast.Compare(left=node.left, ops=[op], comparators=node.comparators)), node)
+        return node
+
+
+KINDS = {"identity": None, "nested": Nested, "noteq": NotEq, "swapeq": SwapEq, "splitand": SplitAnd, "comp2loop": Comp2Loop, "loop2comp": Loop2Comp, "unelse": UnElse, "augexpand": AugExpand, "ifelse": IfElseInvert, "guardinv": GuardInvert, "hoistarg": HoistArg, "inlinetemp": InlineTemp, "swapadj": SwapAdjacent, "demorgan": DeMorgan, "ifexp2if": IfExp2If, "if2ifexp": If2IfExp, "contguard": ContGuard, "anyall": AnyAll, "lenzero": LenZero, "addelse": AddElse, "mergeif": MergeIf, "notin": NotIn}
 
 
 def transform(src, kind):
